@@ -372,3 +372,86 @@ def r13_inline_helpers(text, helpers, log):
             return text
         text = apply_edits(text, [edit])
     return text
+
+
+# ------------------------------------------------------------------------------------------------
+# R14: slice operations Verus cannot attach a specification to (trait methods of `slice::Iter` with extra where-bounds,
+# generic `contains`) are replaced by calls of model functions declared in prelude/std_specs.vrs with std's documented
+# meaning:  E.iter().rposition(P) -> vx_rposition(&E, P)      E.contains(X) -> vx_contains(&E, X)
+# ------------------------------------------------------------------------------------------------
+def _receiver_start(toks, dot_k):
+    """index of the first token of the postfix expression that ends right before the `.` at dot_k"""
+    k = _prev_code(toks, dot_k)
+    while k is not None:
+        t = toks[k]
+        if t.kind == "punct" and t.text in ")]":
+            # find the matching opener
+            depth, j = 0, k
+            while j >= 0:
+                if toks[j].kind == "punct" and toks[j].text in ")]}":
+                    depth += 1
+                elif toks[j].kind == "punct" and toks[j].text in "([{":
+                    depth -= 1
+                    if depth == 0:
+                        break
+                j -= 1
+            k = j
+            p = _prev_code(toks, k)
+            if p is not None and (toks[p].kind == "ident" or (toks[p].kind == "punct" and toks[p].text in ")]")):
+                k = p
+                continue
+            return k
+        if t.kind == "ident" or t.kind == "number":
+            p = _prev_code(toks, k)
+            if p is not None and toks[p].kind == "punct" and toks[p].text == ".":
+                k = _prev_code(toks, p)
+                continue
+            if p is not None and toks[p].text == ":" and p > 0 and toks[p - 1].text == ":":
+                k = _prev_code(toks, p - 1)
+                continue
+            return k
+        return k
+    return None
+
+
+def r14_slice_models(text, log):
+    for _round in range(8):
+        toks = lex(text)
+        edit = None
+        for k, t in enumerate(toks):
+            if t.kind != "ident" or t.text not in ("rposition", "contains"):
+                continue
+            dot = _prev_code(toks, k)
+            par = _next_code(toks, k)
+            if dot is None or toks[dot].text != "." or par is None or toks[par].text != "(":
+                continue
+            close = match_close(toks, par)
+            arg = text[toks[par].end:toks[close].start].strip()
+            if t.text == "rposition":
+                # receiver must end in `.iter()`
+                c2 = _prev_code(toks, dot)            # `)`
+                o2 = _prev_code(toks, c2) if c2 is not None else None   # `(`
+                it = _prev_code(toks, o2) if o2 is not None else None   # `iter`
+                d2 = _prev_code(toks, it) if it is not None else None   # `.`
+                if None in (c2, o2, it, d2) or toks[c2].text != ")" or toks[o2].text != "(" or toks[it].text != "iter" or toks[d2].text != ".":
+                    continue
+                rs = _receiver_start(toks, d2)
+                if rs is None:
+                    continue
+                recv = text[toks[rs].start:toks[_prev_code(toks, d2)].end]
+                edit = (toks[rs].start, toks[close].end, f"vx_rposition(&{recv}, {arg})")
+                log.append(("R14", f"`{recv}.iter().rposition(..)` -> model function vx_rposition (prelude/std_specs.vrs)"))
+            else:
+                rs = _receiver_start(toks, dot)
+                if rs is None:
+                    continue
+                recv = text[toks[rs].start:toks[_prev_code(toks, dot)].end]
+                if not re.search(r"\[.*\.\..*\]\s*$", recv, re.S):      # only sub-slice expressions `x[a..b]` (a slice for sure)
+                    continue
+                edit = (toks[rs].start, toks[close].end, f"vx_contains(&{recv}, {arg})")
+                log.append(("R14", f"`{recv}.contains(..)` -> model function vx_contains (prelude/std_specs.vrs)"))
+            break
+        if edit is None:
+            return text
+        text = apply_edits(text, [edit])
+    return text
